@@ -42,6 +42,7 @@ pub fn prop() -> Prop {
             Tier::Thorough => 600,
         },
         required_probes: &["mode_good", "mode_constant", "mode_repeating32", "mode_repeating64", "mode_counter", "mode_replay", "preprocess_k_ge_4", "same_stream_two_signers", "same_signer_two_streams", "equal_nonces_explained", "sim_commit_checked"],
+        prepare: None,
     }
 }
 
